@@ -109,7 +109,7 @@ Qed.
 
 Theorem known_C12 : check_prop 12 e (c_trace c) (c_labels c) = true.
 Proof.
-  cbn [check_prop]. rewrite known_C12_shape, known_nodup, known_C02, known_C05. cbn [andb].
+  cbn [check_prop]. unfold c at 2. rewrite known_C12_shape, src_panic_ok, known_nodup, known_C02, known_C05. cbn [andb].
   destruct (has_skip (c_trace c) || has_panic (c_trace c)) eqn:E; [reflexivity|].
   apply known_noloss. unfold clean. rewrite E. reflexivity.
 Qed.
